@@ -953,6 +953,7 @@ class Sim:
             self.flags["edit_ok"] = True
             if node.kind == "default":
                 self.d_new.add(sym)
+                w.default_touched = True
             # which warm spellings does this edit make stale candidates
             others_warm = False
             for (nid, s), st in self.warm.items():
@@ -1438,7 +1439,8 @@ def si_image(x):
         d = np.asarray(x.d)
         if d.dtype.kind not in "fiu":
             return None
-        return (np.array(d, dtype="float64") * float(u.base_value), str(u.dimensions))
+        with np.errstate(all="ignore"):
+            return (np.array(d, dtype="float64") * float(u.base_value), str(u.dimensions))
     except Exception:
         return None
 
